@@ -13,7 +13,8 @@ Inductive cls :=
 | KMaybeView    (* method: receiver's memory or new memory                                        -> Let x (AliasOf [recv] true) *)
 | KAnyOperand   (* function / unknown: any operand's memory or new memory                         -> Let x (AliasOf operands true) *)
 | KInPlace      (* trailing underscore / out=: writes the receiver (only), returns it             -> InPlace recv; alias recv *)
-| KMetaInPlace  (* unsqueeze_, resize_, ...: changes the receiver OBJECT's metadata, no stored value -> object-program InPlace *)
+| KMetaInPlace  (* unsqueeze_, resize_, ...: changes the receiver OBJECT's metadata, no stored value, but bumps the version counter the
+                   receiver shares with every view of its storage -> object-program InPlace AND storage-program InPlace *)
 | KValuePres.   (* detach_, requires_grad_: explicitly allowed by the property, values unchanged *)
 
 (* one observed call *)
@@ -58,7 +59,7 @@ Inductive outcome := ORecv | OOther | ONew.
 Definition outcome_of (o : obs) : outcome :=
   if ov_recv o then ORecv else if ov_other o then OOther else ONew.
 
-Definition emits_inplace (c : cls) : bool := match c with KInPlace => true | _ => false end.
+Definition emits_inplace (c : cls) : bool := match c with KInPlace | KMetaInPlace => true | _ => false end.
 
 Lemma permits_step ncaller c o st x recv other sr so :
   permits c o = true -> env st recv = Some sr -> env st other = Some so ->
@@ -92,6 +93,14 @@ Lemma permits_write c o : permits c o = true -> val_recv o = true -> emits_inpla
 Proof.
   intros Hp Hv. destruct c; unfold permits in Hp; simpl in Hp; rewrite ?Hv in Hp; simpl in Hp;
     rewrite ?andb_false_r in Hp; simpl in Hp; try discriminate; reflexivity.
+Qed.
+
+(* the receiver's version counter (shared with every view of its storage) may only be bumped where the translator emits a
+   storage-program InPlace, or by the two methods the property explicitly permits (detach_, requires_grad_) *)
+Lemma permits_version c o : permits c o = true -> bump_recv o = true -> emits_inplace c = true \/ c = KValuePres.
+Proof.
+  intros Hp Hv. destruct c; unfold permits in Hp; simpl in Hp; rewrite ?Hv in Hp; simpl in Hp;
+    rewrite ?andb_false_r in Hp; simpl in Hp; try discriminate; auto.
 Qed.
 
 (* nothing but the receiver is ever written, whatever the class *)
